@@ -81,8 +81,12 @@ def judge(ctx, cases, mm, mon, tr):
     for (ci, step) in mm:
         coll, negdon = tr[ci]
         mon_here = [m for m in mon if m[0] == ci]
+        # inside a known trigger region the implementation may also satisfy the property (a repaired tree):
+        # the defective model then differs, the monitor is clean
         if coll and not any(m[2] == 3 for m in mon_here):
-            continue  # inside the known trigger region the implementation may also satisfy the property (a repaired tree)
+            continue
+        if negdon and not any(m[2] in (1, 2) for m in mon_here):
+            continue
         bad_mm.append((ci, step))
     if bad_mm and not stats["violating_cases"]:
         ci, step = bad_mm[0]
